@@ -112,6 +112,9 @@ def flags(repo):
 
     val = pos(redo_b, r"\.get\(\s*hunk\.start\s*\.\.\s*hunk\.end\s*\)")
     redo_pre = val is not None and val < redo_apply and "return Err" in redo_b[val:redo_apply]
+    other = pos(redo_b, r"verify_checksums\(")
+    if not redo_pre and other is not None and other < redo_apply:
+        unrecognised.append("redo pre-check by History::verify_checksums(...) instead of the stored hunks (modelled as: no pre-validation)")
     return {"earlyDupCheck": early, "redoOnce": redo_once, "undoPrevalidate": undo_pre, "redoPrevalidate": redo_pre,
             "planBeforeEntry": plan_first, "revertIdOfRoot": revert_root, "unrecognised": unrecognised}
 
